@@ -73,9 +73,9 @@ theorem C05_src_reads : SrcTie.decoderLayoutOk = true := by decide
 
 /-! ### tie to the source text (control flow translated from /repo by `bin/extract` on every run) -/
 /-- **C05 about the decoders as they read now.** `Src.decodeK k` is `try_from_packet` of kind `k` translated statement by
-statement from `src/event/*.rs` on every run (fourteen kinds: guard chain in source order, every slice, index and
-`try_into().unwrap()` as a primitive that panics exactly when the Rust expression does; the data and message decoders are
-outside the translated subset and are the model's). For **every** packet: the translated decoder does not panic, and it
+statement from `src/event/*.rs` on every run (fifteen kinds: guard chain in source order, every slice, index,
+`try_into().unwrap()` and the data decoder's copy loop as a primitive that panics exactly when the Rust expression does;
+the message decoder — a `transmute_copy` — is outside the translated subset and is the model's). For **every** packet: the translated decoder does not panic, and it
 accepts exactly when the model's `decode` accepts, with the same value. -/
 theorem C05_src_decoders_total (k : Kind) (p : Packet) :
     Src.decodeK k p ≠ .panic ∧ ∀ e, Src.decodeK k p = .ok e ↔ decode k p = .ok e :=
